@@ -107,9 +107,19 @@ class DiagGen:
                 self.block(target, 1, files)
         kind = r.weighted([('undefined', 5), ('runtime', 4), ('parse', 3), ('line', 4), ('trace', 3)])
         indent = r.choice(['', ' ', '  ', '\t', '    ', '\t\t '])
-        lead = r.choice(['', '', 'p = 1; ', 'q = [1,2]; r = 3; '])
+        lead = r.choice(['', '', 'p = 1; ', 'q = [1,2]; r = 3; ', 'MLS'])
         u = self.uid()
         line_no = len(target.lines) + 1
+        if lead == 'MLS' and kind == 'trace':
+            lead = ''
+        if lead == 'MLS':
+            # a string that runs over a line end in front of the fault: the fault stands on the line the string ends on
+            first = indent + r.choice(['t = "x', 'p = 1; t = "', 't = "a b c'])
+            lead = r.choice(['yz"; ', '"; ', '  end" ; u = 2; '])
+            target.add(first)
+            line_no += 1
+            indent = ''
+            self.note('lead:multi-line string')
         exp = {'file': ROOT + target.name, 'kind': kind}
         if kind == 'undefined':
             stmt = 'z = FAULT_%d;' % u
@@ -170,8 +180,14 @@ class DiagGen:
                 f.add('h%d = %d; /* behind */' % (u, u))
         kind = r.weighted([('undefined', 4), ('runtime', 3), ('parse', 3)])
         indent = r.choice(['', ' ', '  ', '\t', '    '])
-        lead = r.choice(['', '', 'p = 1; ', '/* c */ ', 'q = 2; /* cc */ '])
+        lead = r.choice(['', '', 'p = 1; ', '/* c */ ', 'q = 2; /* cc */ ', 'MLS', 'MLC'])
         line_no = len(f.lines) + 1
+        if lead in ('MLS', 'MLC'):
+            # a string or a block comment that runs over a line end in front of the fault
+            f.add(indent + ('t = "x' if lead == 'MLS' else 'p = 1; /* c'))
+            lead = 'yz"; ' if lead == 'MLS' else ' d */ '
+            line_no += 1
+            indent = ''
         exp = {'file': ROOT + 'main.sqf', 'kind': kind}
         if kind == 'undefined':
             stmt, off, exp['code'] = 'z = FAULT_%d;' % self.uid(), 4, 60070
